@@ -51,6 +51,7 @@ enum { K_EVAL, K_START, K_STOP, K_EVT };
 
 /* ---------------------------------------------------------------- runtime state */
 static m_mod_t *handle[MAXMOD];          /* a usable pointer while the user holds >= 1 reference */
+static m_mod_t *modptr[MAXMOD];          /* the module object while it is alive (environment actions need no user reference) */
 static int urefs[MAXMOD];
 static char names[MAXMOD][16];
 static int cbcount[MAXMOD][4];
@@ -80,7 +81,9 @@ static void h_free(void *p) {
     if (!p) return;
     for (int i = 0; i < 4096; i++) if (payload[i] == p) { out("freedata %d", i); payload[i] = NULL; break; }
     /* an m_mem block is freed through its header: data = header + 32 */
-    for (int i = 0; i < nobjs; i++) if (objs[i].data && (char *)objs[i].data - (char *)p > 0 && (char *)objs[i].data - (char *)p <= 64) { objs[i].data = NULL; break; }
+    for (int i = 0; i < nobjs; i++) if (objs[i].data && (char *)objs[i].data - (char *)p > 0 && (char *)objs[i].data - (char *)p <= 64) {
+        for (int j = 0; j < MAXMOD; j++) if (modptr[j] == objs[i].data) modptr[j] = NULL;
+        objs[i].data = NULL; break; }
     free(p);
 }
 static int count_objs(size_t size, int need_dtor) {
@@ -185,7 +188,7 @@ static const char *kname[] = { "eval", "start", "stop", "evt" };
 static bool hook_common(m_mod_t *self, int kind) {
     int m = mod_index(self); int n = cbcount[m][kind]++;
     int retv, p = lookup_cb(m, kind, 0, n, &retv);
-    out("cb %d %s %d 0", m, kname[kind], n);
+    out("cb %d %s %d 0 st=%d", m, kname[kind], n, (int)m_mod_state(self));
     run_proc(p, NULL, 0);
     out("}");
     return retv;
@@ -197,7 +200,7 @@ static void on_stop(m_mod_t *self) { hook_common(self, K_STOP); }
 static void handler_common(m_mod_t *self, const m_queue_t *const evts, int h) {
     int m = mod_index(self); int n = cbcount[m][K_EVT]++;
     m_evt_t *cur[256]; int ncur = 0;
-    char line[8192]; int len = snprintf(line, sizeof(line), "cb %d evt %d %d", m, n, h);
+    char line[8192]; int len = snprintf(line, sizeof(line), "cb %d evt %d %d st=%d", m, n, h, (int)m_mod_state(self));
     for (m_queue_itr_t *it = m_queue_itr_new(evts); it; m_queue_itr_next(&it)) {
         m_evt_t *e = m_queue_itr_get_data(it);
         if (ncur < 256) cur[ncur++] = e;
@@ -271,13 +274,17 @@ static void do_env(call_t *c) {
     if (!strcmp(o, "fdwrite")) { long u = L(c->tok[1]); if (u >= 0 && u < NUFD && !ufd_closed[u]) { char x = 1; if (write(ufd_w[u], &x, 1) != 1) {} } }
     else if (!strcmp(o, "fire")) {
         int m = (int)L(c->tok[1]); m_src_types t = ktype(c->tok[2]); unsigned long long key = U(c->tok[3]);
-        if (m < 0 || m >= MAXMOD || !handle[m] || m_mod_is(handle[m], M_MOD_ZOMBIE)) return;
-        ev_src_t *s = find_lib_src(handle[m], t, key);
+        if (m < 0 || m >= MAXMOD || !modptr[m] || m_mod_is(modptr[m], M_MOD_ZOMBIE)) return;
+        ev_src_t *s = find_lib_src(modptr[m], t, key);
         if (!s || !s->ev) return;                       /* not armed: nothing can fire */
         if (t == M_SRC_TYPE_TMR) {
             struct itimerspec v = {{0}}; v.it_value.tv_nsec = 1;
             __real_timerfd_settime(s->tmr_src.f.fd, 0, &v, NULL); wait_readable(s->tmr_src.f.fd);
-        } else if (t == M_SRC_TYPE_SGN) { raise((int)key); wait_readable(s->sgn_src.f.fd); }
+        } else if (t == M_SRC_TYPE_SGN) {
+            sigset_t pend; sigpending(&pend);
+            if (!sigismember(&pend, (int)key)) raise((int)key);      /* queued (real time) signals would need one read each */
+            wait_readable(s->sgn_src.f.fd);
+        }
         else if (t == M_SRC_TYPE_TASK) { wait_readable(s->task_src.f.fd); }
     } else if (!strcmp(o, "firetick")) {
         m_ctx_t *c2 = m_ctx();
@@ -296,6 +303,10 @@ static int exec_call(proc_t *pr, int idx, m_evt_t **cur, int ncur) {
     call_t *c = &pr->calls[idx];
     const char *o = c->tok[0];
     int consumed = 1;
+    if (!strcmp(o, "tell") || !strcmp(o, "publish")) out("> %s %s", o, c->tok[3]);
+    else if (!strcmp(o, "broadcast")) out("> %s %s", o, c->tok[2]);
+    else if (!strcmp(o, "stash")) out("> %s %ld", o, 100 * (L(c->tok[1]) + 1) + L(c->tok[2]) + 1);
+    else out("> %s", o);
     long a = c->nt > 1 ? L(c->tok[1]) : 0;
     if (!strcmp(o, "ctxreg")) out("r%d", m_ctx_register("ctx", a ? M_CTX_PERSIST : 0, NULL));
     else if (!strcmp(o, "ctxdereg")) out("r%d", m_ctx_deregister());
@@ -318,7 +329,15 @@ static int exec_call(proc_t *pr, int idx, m_evt_t **cur, int ncur) {
     else if (!strcmp(o, "dispatch")) out("r%d", m_ctx_dispatch());
     else if (!strcmp(o, "quit")) out("r%d", m_ctx_quit((uint8_t)a));
     else if (!strcmp(o, "ctxlen")) out("r%zd", m_ctx_len());
-    else if (!strcmp(o, "stats")) { m_ctx_stats_t st; int r = m_ctx_stats(&st); out("r%d", r); if (r == 0) out("val %zu", st.running_modules); }
+    else if (!strcmp(o, "stats")) {
+        m_ctx_stats_t st; int r = m_ctx_stats(&st); out("r%d", r);
+        if (r == 0) {
+            /* white-box: how many modules of the table really are RUNNING */
+            int running = 0; m_ctx_t *cx = m_ctx();
+            for (m_map_itr_t *it = m_map_itr_new(cx->modules); it; m_map_itr_next(&it)) running += m_mod_is(m_map_itr_get_data(it), M_MOD_RUNNING);
+            out("val %zu", st.running_modules); out("val %d", running);
+        }
+    }
     else if (!strcmp(o, "settick")) out("r%d", m_ctx_set_tick(U(c->tok[1])));
     else if (!strcmp(o, "reg")) {
         int m = (int)a; modspec_t *s = &mods[m];
@@ -328,7 +347,7 @@ static int exec_call(proc_t *pr, int idx, m_evt_t **cur, int ncur) {
         snprintf(names[m], sizeof(names[m]), "m%d", s->name);
         m_mod_t *ref = NULL;
         int r = m_mod_register(names[m], &ref, &hk, fl, NULL);
-        if (r == 0) { handle[m] = ref; urefs[m] = 1; } else names[m][0] = 0;
+        if (r == 0) { handle[m] = ref; modptr[m] = ref; urefs[m] = 1; } else names[m][0] = 0;
         out("r%d", r);
     }
     else if (!strcmp(o, "dereg")) {
